@@ -147,7 +147,7 @@ def cbcount(d):
 
 def gen(tier, seed):
     n = {"quick": 700, "thorough": 8000}[tier]
-    a, st = gen_prog.programs(seed * 1000003 + 2, n, max_depth=3, error_rate=0.05, features={"opt": 0.3, "callbacks": 0.1, "flat": 0.15})
+    a, st = gen_prog.programs(seed * 1000003 + 2, n, max_depth=3, error_rate=0.05, features={"opt": 0.3, "callbacks": 0.1, "flat": 0.15, "loops": 0.4, "temps": 0.3})
     return a, st
 
 
@@ -169,6 +169,25 @@ def check(tier, seed):
     judge(c, E.corpus("C02.txt") + E.corpus("eval_core.txt"), "corpus")
     progs, st = gen(tier, seed)
     judge(c, progs, "generated")
+    # memory errors that only the optimised tree provokes (a rewritten node that no longer keeps a temporary alive): the same programs under ASan+UBSan
+    sub = E.corpus("C02.txt") + progs[:{"quick": 220, "thorough": 2500}[tier]]
+    # constant arithmetic that is undefined in C++ is evaluated by the optimizer at parse time even in code that never runs; under UBSan that
+    # alone stops the process, and it says nothing about the optimizer's rewrites: such programs are left out of this pass
+    rawt = E.run_impl(sub, "raw")
+    ub = E.run_optimizer_model([r.get("tree", "") for r in rawt])
+    sub = [p for p, r, u in zip(sub, rawt, ub) if "tree" in r and u != "UBFOLD"]
+    ao = E.run_impl(sub, "opt", asan=True)
+    ar = E.run_impl(sub, "raw", asan=True)
+    for p, o, r in zip(sub, ao, ar):
+        c.cov["evaluations"] += 2
+        c.dist["sanitizer-run"] = c.dist.get("sanitizer-run", 0) + 1
+        died_o = "tree" not in o and not o.get("parse_error", "").startswith("PARSE-ERR")
+        died_r = "tree" not in r and not r.get("parse_error", "").startswith("PARSE-ERR")
+        if died_o and not died_r:
+            c.fail("the optimised evaluation dies under the address/undefined-behaviour sanitizers, the unoptimised one does not",
+                   {"program": p, "optimised": o.get("parse_error", "")[:200], "unoptimised": (r.get("res") or "")[:120], "source": "sanitizer"})
+        elif died_o and died_r:
+            c.dist["sanitizer: both runs die (not an optimizer matter)"] = c.dist.get("sanitizer: both runs die (not an optimizer matter)", 0) + 1
     c.dist.update({"construct:" + k: v for k, v in st.items()})
     for k in (0, len(progs) // 2):
         c.sample({"program": progs[k][:600]})
